@@ -35,7 +35,7 @@ import (
 
 func genCls(a hx.Args) {
 	r := hx.NewRng(a.Seed)
-	n := a.N(120, 2500)
+	n := a.N(600, 4000)
 	for i := 0; i < n; i++ {
 		hx.Emit("cls %d %d %d %d %d %d", r.U64()%1000000, r.Intn(4), 1+r.Intn(3), r.Intn(1500), r.Intn(3), r.Intn(2))
 	}
@@ -83,6 +83,14 @@ func runCls(t *testing.T, tk []string) string {
 	}
 	dial := func(ctx context.Context, network, addr string) (net.Conn, error) {
 		if down.Load() {
+			// a failed connection attempt takes time; failing in zero (virtual) time lets the sink's
+			// "unable to load producer ID … retrying" loop, which has no back-off, spin without the bubble's
+			// clock ever advancing (observation outside C13: that loop burns CPU while a broker refuses connections)
+			select {
+			case <-time.After(5 * time.Millisecond):
+			case <-ctx.Done():
+				return nil, ctx.Err()
+			}
 			return nil, errors.New("unreachable")
 		}
 		return net_.Stack.DialContext(ctx, network, addr)
@@ -161,6 +169,47 @@ func runCls(t *testing.T, tk []string) string {
 				break
 			}
 		}
+	}
+	if consuming && seed%2 == 0 {
+		// the log is trimmed under the consumer (DeleteRecords up to the high watermark) while another client keeps
+		// producing: fetches are answered OFFSET_OUT_OF_RANGE and the consumer reloads its offsets (ListOffsets after
+		// a metadata wait), so that Close also lands while an offset reload is in progress
+		wg.Add(1)
+		go func() {
+			defer wg.Done()
+			tr := hx.NewRng(seed*23 + 5)
+			adm, err := kgo.NewClient(kgo.SeedBrokers(cluster.ListenAddrs()...), kgo.Dialer(net_.Stack.DialContext),
+				kgo.RecordPartitioner(kgo.ManualPartitioner()), kgo.RetryBackoffFn(func(int) time.Duration { return 20 * time.Millisecond }))
+			if err != nil {
+				return
+			}
+			defer adm.Close()
+			for {
+				select {
+				case <-stop:
+					return
+				default:
+				}
+				for p := int32(0); p < 3; p++ {
+					adm.Produce(ctx, &kgo.Record{Topic: "t", Partition: p, Value: []byte("filler")}, nil)
+				}
+				time.Sleep(time.Duration(100+tr.Intn(400)) * time.Millisecond)
+				req := kmsg.NewPtrDeleteRecordsRequest()
+				req.TimeoutMillis = 1000
+				rt := kmsg.NewDeleteRecordsRequestTopic()
+				rt.Topic = "t"
+				for p := int32(0); p < 3; p++ {
+					rp := kmsg.NewDeleteRecordsRequestTopicPartition()
+					rp.Partition, rp.Offset = p, -1
+					rt.Partitions = append(rt.Partitions, rp)
+				}
+				req.Topics = append(req.Topics, rt)
+				rctx, rc := context.WithTimeout(ctx, 2*time.Second)
+				adm.Request(rctx, req)
+				rc()
+				hx.St.Inc("scen.cls.trim")
+			}
+		}()
 	}
 	if consuming {
 		// a second member so that rebalances happen, and the poller of the client under test
